@@ -29,6 +29,11 @@ def specs(ck, n, prop, configs):
     # a star import that is not part of the leading import block (a statement precedes it) while a class it provides is traced
     pins.append({"name": f"vfsrc_{prop.lower()}_pin_latestar_{ck.seed}", "seed": f"{prop}:pin:9", "style": "mixed", "configs": configs, "cli": prop == "C16",
                  "cli_confine": True, "force": ["existing-type-checking-block", "none-default"]})
+    # combinations earlier seeded changes needed (kept deterministic: a detection resting on a few random sources is a miss waiting to happen)
+    for j, (style, force) in enumerate([("function-local-from-import", ["module-code", "squares", "decorated"]), ("aliased-from-import", ["noncanonical-partial-annotations", "none-default"]),
+                                        ("aliased-module", ["noncanonical-partial-annotations", "all-param-kinds"]), ("function-local-import", ["generator", "module-code"])]):
+        pins.append({"name": f"vfsrc_{prop.lower()}_pin_combo{j}_{ck.seed}", "seed": f"{prop}:pin:combo{j}", "style": style, "configs": configs, "cli": True,
+                     "cli_confine": prop == "C16", "force": force})
     verbose = ("import typing\n\n\ndef total(values: typing.Optional[typing.Union[typing.List[int], typing.Tuple[int, ...]]] = None, "
                "start: typing.Optional[typing.Union[int, float, complex]] = 0) -> typing.Optional[typing.Union[int, float, complex]]:\n"
                "    return sum(values or []) + start\n\n\ndef label(n: typing.Union[int, str, bytes, None] = 1) -> typing.Union[str, bytes, None]:\n"
